@@ -273,6 +273,49 @@ def cli_cases(res, drv, tier):
             return rc, log, (open(out, "rb").read() if common.was_written(out) else None)
         with ThreadPoolExecutor(max_workers=12) as ex:
             outs = list(ex.map(one, range(len(cases))))
+        # a payload that is not a regular file (a named pipe, as with process substitution or /dev/stdin): its content is what is read from it
+        import threading
+        import time as _t
+        fifo = os.path.join(d, "payload.fifo")
+        os.mkfifo(fifo)
+        pdata = payload(5000, 9)
+
+        def feed():
+            t0 = _t.time()
+            while _t.time() - t0 < 30:
+                try:
+                    fd = os.open(fifo, os.O_WRONLY | os.O_NONBLOCK)
+                except OSError:
+                    _t.sleep(0.05)
+                    continue
+                try:
+                    os.set_blocking(fd, True)
+                    view = memoryview(pdata)
+                    while view:
+                        view = view[os.write(fd, view):]
+                except OSError:
+                    pass
+                finally:
+                    os.close(fd)
+                return
+        th = threading.Thread(target=feed, daemon=True)
+        th.start()
+        fout = os.path.join(d, "out_fifo.bin")
+        rc_f, log_f = common.run_cli(["cache_create", "from_payloads", "--input", f"#piped,{fifo}", "--input", f"#plain,{os.path.join(d, 'p0.bin')}", "--output-file", fout,
+                                      "--eb-size", "8"], d)
+        th.join(35)
+        res.case(["cli-cache", "named-pipe"], nontrivial=True)
+        res.count("cli:from_payloads:named-pipe")
+        fdata = open(fout, "rb").read() if os.path.exists(fout) else None
+        if rc_f != 0 or fdata is None:
+            res.spec_failures.append({"cli": "cache_create from_payloads", "what": f"a payload given as a named pipe: the command line failed (exit {rc_f})", "log": log_f[-300:]})
+        else:
+            cf = drv.call({"op": "cache.check", "eb": 8, "slots": [["#piped", pdata.hex()], ["#plain", slots[0][1].hex()]], "out": fdata.hex()})["ok"]
+            if not cf:
+                items = drv.call({"op": "cache.read", "out": fdata.hex()})
+                sizes = [[bytes.fromhex(i["key"]).decode(), len(i["value"]) // 2] for i in items.get("ok", []) if i.get("key")] if "ok" in items else None
+                res.spec_failures.append({"cli": "cache_create from_payloads", "supplied_bytes": len(pdata), "slots_in_cache": sizes,
+                                          "what": "a payload read from a named pipe is not stored with the content that was supplied"})
     for (sub, eb), (rc, log, data) in zip(cases, outs):
         res.case(["cli-cache", sub, eb], nontrivial=True)
         res.count("cli:" + sub)
